@@ -109,3 +109,259 @@ HARNESSES = [
              'carbon.cache:_MetricCache.store', 'carbon.cache:_MetricCache.drain_metric'],
     assumptions=_ASSUME),
 ]
+
+
+# ---- preemption inside a pass, combined with the stop -------------------------------------------------------------------------
+from vp_lib import racelab as R  # noqa: E402
+from vp_lib import sched, threadreplay  # noqa: E402
+import carbon.util as real_util  # noqa: E402
+
+_WT = ['writeCachedDataPoints', 'writeForever', 'shutdownModifyUpdateSpeed']
+_BT = ['drain', 'peek', 'setCapacityAndFillRate']
+COW = sched.coroutinise(W.writer, _WT, ['cache', 'UPDATE_BUCKET'], call_targets=R.TARGETS + ['drain', 'setCapacityAndFillRate'])
+CU = sched.coroutinise(real_util, _BT, ['self'], call_targets=['peek'])
+if COW.__vp_missing__ or CU.__vp_missing__:
+  raise LookupError('cannot instrument carbon.writer / carbon.util.TokenBucket')
+
+
+class _Clock(object):
+  """time() / sleep() of carbon.util: sleep advances the clock; a negative argument raises as time.sleep does."""
+
+  def __init__(self):
+    self.now = 1000.0
+
+  def time(self):
+    return self.now
+
+  def sleep(self, d):
+    if d < 0:
+      raise ValueError('sleep length must be non-negative')
+    self.now += d
+
+
+def _race_problem(db, accepted, cache):
+  written = {}
+  for c in db.calls:
+    if c[0] == 'write':
+      for (ts, v) in c[2]:
+        written.setdefault((c[1], ts), []).append(v)
+  versions = {}
+  for (m, ts, v) in accepted:
+    versions.setdefault((m, ts), []).append(v)
+  for (m, ts), vs in versions.items():
+    got = written.get((m, ts), [])
+    if not got:
+      return 'datapoint %s@%s accepted before the stop was never written (still cached: %s) when the writer exited' % (m, ts, m in cache and ts in cache[m])
+    if len(got) > len(vs):
+      return 'datapoint %s@%s written %d times' % (m, ts, len(got))
+    if got[-1] != vs[-1]:
+      return 'the most recent value of %s@%s was not the last one written' % (m, ts)
+  if K.held(cache) != 0:
+    return 'cache not empty at writer exit'
+  return None
+
+
+def _drive(W_t, R_t, p1, n, p2, limit=900):
+  """Writer runs p1 statements, the other thread n statements, the writer p2 more, then the other thread
+  to its end (the writer advances only while it is blocked), then the writer to its end."""
+  trace = []
+  k = 0
+  while k < p1 and not W_t.done:
+    if W_t.step(trace) != 'ran':
+      break
+    k += 1
+  k = 0
+  while k < n and not R_t.done:
+    if R_t.step(trace) != 'ran':
+      break
+    k += 1
+  k = 0
+  while k < p2 and not W_t.done:
+    if W_t.step(trace) != 'ran':
+      break
+    k += 1
+  total = 0
+  while not R_t.done:
+    total += 1
+    if total > limit:
+      raise sched.Deadlock('step limit')
+    if R_t.step(trace) == 'blocked':
+      if W_t.step(trace) != 'ran':
+        raise sched.Deadlock('both threads blocked')
+  while not W_t.done:
+    total += 1
+    if total > limit:
+      raise sched.Deadlock('step limit')
+    if W_t.step(trace) == 'blocked':
+      raise sched.Deadlock('writer blocked with nobody to release the lock')
+  return trace
+
+
+def _coroutine_run(strat, kind, b0, b2, mi, ti, ub, p1, n, p2):
+  """kind 0: the receiving thread stores a datapoint somewhere inside a pass; the stop arrives during the
+  idle sleep that follows, together with one more datapoint.  kind 1: the stop itself (the shutdown
+  trigger changing the limits, then running = False) preempts the pass."""
+  R.CO.choice = lambda seq: seq[0]
+  K.apply_limits(float('inf'), False)
+  sset('MIN_TIMESTAMP_LAG', 0)
+  sset('MAX_UPDATES_PER_SECOND_ON_SHUTDOWN', 1000)
+  cache = R.CO._MetricCache(K.strategy_class(R.CO, strat))
+  cache.lock = sched.CoopLock()
+  accepted = []
+  for i, bit in ((0, b0), (1, b2)):
+    if bit:
+      sched.run_to_end(cache.store(K.METRICS[i], (10, 1 + i)))
+      accepted.append((K.METRICS[i], 10, 1 + i))
+  clock = _Clock()
+  CU.time, CU.sleep = clock.time, clock.sleep
+  bucket = CU.TokenBucket(1, 1) if ub else None
+  reactor = W.StopReactor()
+  db = W.RecordingDB(preexisting=['a', 'b', 'c'])
+  st = {'stop_sleep': None, 'x': False, 'sleeps': 0}
+  threads = {}
+
+  def on_sleep(d):
+    i = st['sleeps']
+    st['sleeps'] += 1
+    if kind == 0 and st['stop_sleep'] is None and threads['R'].done:
+      if not cache.lock.held:
+        sched.run_to_end(cache.store('b', (200, 9)))
+        accepted.append(('b', 200, 9))
+        st['x'] = True
+      sched.run_to_end(COW.shutdownModifyUpdateSpeed())
+      reactor.stop()
+      st['stop_sleep'] = i
+  tm = W.FakeTimeModule(on_sleep=on_sleep)
+  R.CO.time = tm
+  W.install(cache, db, None, bucket, reactor=reactor, time_mod=tm, mod=COW)
+  store = (K.METRICS[mi], [10, 20, 30][ti], 7)
+
+  def other():
+    if kind == 0:
+      yield from cache.store(store[0], (store[1], store[2]))
+    else:
+      yield from COW.shutdownModifyUpdateSpeed()
+      yield ('line', 0)
+      reactor.stop()
+  threads['W'] = sched.Thread('W', COW.writeForever())
+  threads['R'] = sched.Thread('R', other())
+  try:
+    trace = _drive(threads['W'], threads['R'], p1, n, p2)
+  finally:
+    W.restore()
+    sset('MIN_TIMESTAMP_LAG', 0)
+    settings.pop('MAX_UPDATES_PER_SECOND_ON_SHUTDOWN', None)
+    settings.__dict__.pop('MIN_TIMESTAMP_LAG', None)
+  if kind == 0 and threads['R'].error is None:
+    accepted.append(store)
+  return trace, threads, accepted, db, cache, st
+
+
+def C04_race(strat: int, kind: int, b0: bool, b2: bool, mi: int, ti: int, ub: bool, p1: int, n: int, p2: int) -> bool:
+  """
+  pre: 0 <= strat <= 6
+  pre: 0 <= kind <= 1
+  pre: 0 <= mi <= 2 and 0 <= ti <= 2
+  pre: 0 <= p1 <= 95 and 0 <= n <= 14 and 0 <= p2 <= 6
+  pre: p1 <= 70 or kind == 1
+  post: __return__
+  """
+  trace, threads, accepted, db, cache, st = _coroutine_run(strat, kind, b0, b2, mi, ti, ub, p1, n, p2)
+  if [t for t in trace if t[0] == 'R'] and [t for t in trace if t[0] == 'W']:
+    cover('interleaved')
+  if threads['R'].error is not None:
+    if isinstance(threads['R'].error, ValueError) and K.STRATEGY_NAMES[strat] == 'bucketmax' and kind == 0:
+      return True                                     # known finding F5 (C17): the store itself fails, nothing was accepted
+    raise AssertionError('the other thread failed: %r' % (threads['R'].error,))
+  if threads['W'].error is not None:
+    raise AssertionError('writer thread died: %r' % (threads['W'].error,))
+  if kind == 0 and st['stop_sleep'] is None:
+    return True                                       # the stop never came within this schedule family
+  cover('stopped')
+  problem = _race_problem(db, accepted, cache)
+  if problem:
+    raise AssertionError(problem)
+  return True
+
+
+def replay_race(strat, kind, b0, b2, mi, ti, ub, p1, n, p2):
+  trace, threads, accepted, db, cache, st = _coroutine_run(strat, kind, b0, b2, mi, ti, ub, p1, n, p2)
+  if kind == 0 and st['stop_sleep'] is None:
+    return True
+  # the same schedule on real threads: real carbon.writer, carbon.cache, carbon.util.TokenBucket
+  K.real_cache.choice = lambda seq: seq[0]
+  K.apply_limits(float('inf'), False)
+  sset('MIN_TIMESTAMP_LAG', 0)
+  sset('MAX_UPDATES_PER_SECOND_ON_SHUTDOWN', 1000)
+  rcache = K.real_cache._MetricCache(K.strategy_class(K.real_cache, strat))
+  raccepted = []
+  for i, bit in ((0, b0), (1, b2)):
+    if bit:
+      rcache.store(K.METRICS[i], (10, 1 + i))
+      raccepted.append((K.METRICS[i], 10, 1 + i))
+  clock = _Clock()
+  old_util = (real_util.time, real_util.sleep)
+  real_util.time, real_util.sleep = clock.time, clock.sleep
+  bucket = real_util.TokenBucket(1, 1) if ub else None
+  reactor = W.StopReactor()
+  rdb = W.RecordingDB(preexisting=['a', 'b', 'c'])
+  rs = {'sleeps': 0}
+
+  def on_sleep(d):
+    i = rs['sleeps']
+    rs['sleeps'] += 1
+    if kind == 0 and i == st['stop_sleep']:
+      if st['x']:
+        rcache.store('b', (200, 9))
+        raccepted.append(('b', 200, 9))
+      W.writer.shutdownModifyUpdateSpeed()
+      reactor.stop()
+  tm = W.FakeTimeModule(on_sleep=on_sleep)
+  K.real_cache.time = tm
+  W.install(rcache, rdb, None, bucket, reactor=reactor, time_mod=tm)
+  store = (K.METRICS[mi], [10, 20, 30][ti], 7)
+
+  def other():
+    if kind == 0:
+      rcache.store(store[0], (store[1], store[2]))
+    else:
+      W.writer.shutdownModifyUpdateSpeed()
+      reactor.stop()
+  try:
+    results, problems = threadreplay.run_threads(
+      trace, {'W': W.writer.writeForever, 'R': other}, ('carbon/cache.py', 'carbon/writer.py', 'carbon/util.py'), R.TARGETS + _WT + _BT)
+  finally:
+    W.restore()
+    real_util.time, real_util.sleep = old_util
+    import time as _t
+    K.real_cache.time = _t
+    sset('MIN_TIMESTAMP_LAG', 0)
+    settings.pop('MAX_UPDATES_PER_SECOND_ON_SHUTDOWN', None)
+    settings.__dict__.pop('MIN_TIMESTAMP_LAG', None)
+  errs = dict((k, v) for k, (kind_, v) in results.items() if kind_ == 'error')
+  if problems and not errs:
+    raise RuntimeError('schedule could not be enforced on real threads: %r' % (problems,))
+  if 'R' in errs:
+    return isinstance(errs['R'], ValueError) and K.STRATEGY_NAMES[strat] == 'bucketmax' and kind == 0
+  if 'W' in errs:
+    return False
+  if kind == 0:
+    raccepted.append(store)
+  return _race_problem(rdb, raccepted, rcache) is None
+
+
+_RQ = ([('k0_s%d_m%d_b%d' % (s, m, b), 'kind == 0 and strat == %d and mi == %d and not ub and b2 == %s' % (s, m, bool(b))) for s in (3, 6) for m in (0, 2) for b in (0, 1)] +
+       [('k1_s%d_ub%d' % (s, u), 'kind == 1 and strat == %d and ub == %s and mi == 0 and ti == 1' % (s, bool(u))) for s in (3,) for u in (0, 1)])
+_RT = ([('k0_s%d_m%d_ub%d' % (s, m, u), 'kind == 0 and strat == %d and mi == %d and ub == %s' % (s, m, bool(u))) for s in range(7) for m in range(3) for u in (0, 1)] +
+       [('k1_s%d_ub%d' % (s, u), 'kind == 1 and strat == %d and ub == %s and mi == 0 and ti == 1' % (s, bool(u))) for s in range(7) for u in (0, 1)])
+HARNESSES.append(
+  H('C04_race', quick=dict(timeout=280, shards=_RQ, extra_pre=['ti != 0', 'b0', 'b2 or kind == 0', 'n in (4, 14)', 'p2 in (0, 3)']), thorough=dict(timeout=900, shards=_RT, extra_pre=['n in (0, 2, 4, 6, 9, 14)', 'p2 in (0, 1, 3, 6)']),
+    covers=['interleaved', 'stopped'], replay='replay_race', twin_pre=['strat == 3 and mi == 0'],
+    encodes=['carbon.writer:writeForever / writeCachedDataPoints / shutdownModifyUpdateSpeed (statement-level coroutines)',
+             'carbon.cache:_MetricCache.store / drain_metric / pop, strategies (statement-level coroutines)',
+             'carbon.util:TokenBucket.drain / peek / setCapacityAndFillRate (statement-level coroutines, concrete capacity 1, rate 1/s)'],
+    assumptions=['schedules: the writer loop runs p1 statements, the other thread n statements, the writer p2 more, then the other thread to its end, then the writer to its end',
+                 'kind 0: the other thread stores one datapoint; the stop (with one more datapoint just before it) arrives during the first idle sleep after that store',
+                 'kind 1: the other thread is the shutdown trigger itself (shutdownModifyUpdateSpeed, then running = False) preempting the pass, update bucket real or absent',
+                 'backend without faults, files pre-existing; MAX_UPDATES_PER_SECOND_ON_SHUTDOWN = 1000; a store that raises (known finding F5, bucketmax) is not counted as accepted',
+                 'counterexamples replayed on real OS threads running the real carbon.writer, carbon.cache and carbon.util']))
